@@ -63,10 +63,10 @@ def _worker(name):
           continue
         seen.add(key)
         done, fails = harness.run_concrete(c, values=cx['values'], n=1)
-        reproduced = bool(fails) and not fails[0].get('rejected') and (
-            cx['name'] in fails[0].get('names', []) or
-            (cx['name'].startswith('exception:') and bool(fails[0].get('names'))) or
-            any(n.startswith('exception:') for n in fails[0].get('names', [])))
+        # the model's input must violate SOME obligation of the case on the real library (the
+        # obligation that fails concretely may be a neighbouring one, e.g. IndexError instead of
+        # a silently returned value)
+        reproduced = bool(fails) and not fails[0].get('rejected') and bool(fails[0].get('names'))
         out['replays'].append({'obligation': cx['name'], 'values': cx['values'],
                                'reproduced': reproduced, 'nice': cx.get('nice'),
                                'goal': cx.get('goal'),
@@ -215,8 +215,10 @@ def run_check(prop, cases, level_text, assumptions, outside, predicates=None, ar
   for cname, ob, path, how in violations:
     print('VIOLATION property=%s replay=%s' % (prop, path))
     print('  case=%s obligation=%s found_by=%s' % (cname, ob, how))
-  for p in problems:
-    print('PROBLEM %s' % p)
+  for p in problems[:12]:
+    print('PROBLEM %s' % p[:700])
+  if len(problems) > 12:
+    print('PROBLEM ... and %d more' % (len(problems) - 12))
   npaths = sum((r.get('sym') or {}).get('paths', 0) for r in results)
   nob = sum(len((r.get('sym') or {}).get('obligations', [])) for r in results)
   print('%s %s: cases=%d paths=%d obligations=%d violations=%d known=%d problems=%d wall=%.1fs'
